@@ -1043,6 +1043,7 @@ pub fn scripted_failure(id: Id, _what: u8) {
 // ------------------------------------------------------------------------------------------
 
 fn step_invariants(sim: &Rc<Sim>, p: &Program, i: usize) {
+    crate::ops::attribute_faults(sim);
     crate::exec::step_invariants(sim, false);
     if sim.is_dead() {
         return;
